@@ -38,6 +38,10 @@ def run(ctx):
     from . import c04
     c04.r04_1(ctx, rep, roles)
     ctx.report.rules[-1].id = "R06.5(R04.1)"
+    from .. import wrappers
+    wrappers.gc_chain(ctx, rep, roles, "C06", "R06.6")
+    wrappers.contains_key(ctx, rep, roles, "C06", "R06.7")
+    wrappers.state_readers(ctx, rep, roles, "C06", "R06.8")
 
 
 def variant_table(fx, fn, self_name="self"):
